@@ -265,6 +265,14 @@ def encode_case(case):
 CASE_TIMEOUT = float(os.environ.get("VERIF_CASE_TIMEOUT", "30"))
 
 
+MEM_CAP_BYTES = int(os.environ.get("VERIF_MEM_CAP_GB", "4")) << 30
+
+
+def _limit_memory():
+    import resource
+    resource.setrlimit(resource.RLIMIT_AS, (MEM_CAP_BYTES, MEM_CAP_BYTES))
+
+
 def _run_proc(cmd, batch_path, timeout, env=None, case_timeout=None):
     """Run one runner process over a batch file, watching its output: the process is killed when
     the whole batch exceeds `timeout` or when one case stays in flight longer than `case_timeout`
@@ -274,7 +282,12 @@ def _run_proc(cmd, batch_path, timeout, env=None, case_timeout=None):
     import selectors
     case_timeout = case_timeout or CASE_TIMEOUT
     errf = tempfile.TemporaryFile()
-    p = subprocess.Popen(cmd + [batch_path], stdout=subprocess.PIPE, stderr=errf, env=env)
+    # An address-space limit turns unbounded memory growth (a compile loop that appends an error message for ever,
+    # say) into a prompt allocation failure attributed to the case, instead of 16 runners exhausting the machine.
+    # Sanitizer, valgrind and Miri processes reserve terabytes of address space and are left alone.
+    capped = os.path.basename(cmd[0]).startswith("yv-") and "asan" not in cmd[0] and (env or {}).get("ASAN_OPTIONS") is None
+    p = subprocess.Popen(cmd + [batch_path], stdout=subprocess.PIPE, stderr=errf, env=env,
+                         preexec_fn=_limit_memory if capped else None)
     sel = selectors.DefaultSelector()
     sel.register(p.stdout, selectors.EVENT_READ)
     os.set_blocking(p.stdout.fileno(), False)
@@ -349,6 +362,9 @@ def _run_proc(cmd, batch_path, timeout, env=None, case_timeout=None):
     return results, None, ("ok",)
 
 
+ABORT_CAP = int(os.environ.get("VERIF_ABORT_CAP", "48"))
+
+
 def run_batch(cfg, cases, shards=None, timeout=600, wrapper=None, env=None, keep_order=True, cmd=None, case_timeout=None):
     """Run cases on the runner built in configuration cfg, sharded over processes.
     Every case gets a result dict; abnormal ends are attributed to exactly one case:
@@ -370,7 +386,16 @@ def run_batch(cfg, cases, shards=None, timeout=600, wrapper=None, env=None, keep
     try:
         pending = [(gi, g) for gi, g in enumerate(groups) if g]
         round_no = 0
+        aborts = 0
         while pending:
+            if aborts >= ABORT_CAP:
+                # a tree on which this many cases kill or hang the runner is broken beyond doubt: do not spend a
+                # watchdog period on each of the remaining cases (they are marked not-run, never judged)
+                for gi, group in pending:
+                    for c in group:
+                        results.setdefault(c["id"], {"id": c["id"], "steps": [], "abort": {
+                            "why": "not-run", "status": ["not-run", "%d cases had already killed or hung the runner" % aborts]}})
+                break
             procs = []
             for gi, group in pending:
                 path = os.path.join(tmpdir, "b%d-%d.txt" % (gi, round_no))
@@ -398,6 +423,7 @@ def run_batch(cfg, cases, shards=None, timeout=600, wrapper=None, env=None, keep
                 idx = ids.index(begun)
                 why = "timeout" if status[0] == "timeout" else "exit"
                 results[begun] = {"id": begun, "steps": [], "abort": {"why": why, "status": list(status)}}
+                aborts += 1
                 rest = group[idx + 1:]
                 if rest:
                     nxt.append((gi, rest))
@@ -649,6 +675,13 @@ class Check:
 
     def violation(self, signature, replay):
         """signature: monitor-specific string; replay: dict written to /verif/replay"""
+        blob = signature
+        if isinstance(replay, dict):
+            blob += " " + str(replay.get("what", "")) + " " + str(replay.get("problem", ""))
+        if "not-run" in blob:
+            if not any("not run" in x for x in self.inconclusive):
+                self.inconclusive.append("some cases were not run because too many earlier cases killed or hung the runner")
+            return False
         k = self.findings.match(self.prop, signature)
         if k is not None:
             self.known_hit[k.get("id", signature)] = k.get("text", "")
